@@ -87,6 +87,18 @@ def templates(tier):
     T.append(("def tfun(a: Qint[2], p: Parameter[Qchar]) -> Qchar:\n    return p if a == 1 else 'x'\n", {"p": ["a", "b"]}))
     T.append(("def tfun(a: Qfixed[1, 2], p: Parameter[Qfixed[1, 2]]) -> bool:\n    return a > p\n", {"p": [0.5, 0.25, 1.0, 1.5]}))
     T.append(("def tfun(a: Qfixed[1, 2], p: Parameter[Qfixed[1, 2]]) -> Qfixed[1, 2]:\n    return a + p\n", {"p": [0.5, 0.25, 1.0]}))
+    # a bound value is typed by its VALUE (1 is a 2-bit constant, 0.5 a Qfixed[1,2] one): parameters narrower than the argument they meet
+    q4c = [0, 1, 2, 3, 4, 7, 8, 15] if tier == "quick" else list(range(16))
+    for c in ("<", "<=", ">", ">=", "==", "!="):
+        T.append(("def tfun(a: Qint[4], p: Parameter[Qint[4]]) -> bool:\n    return p %s a\n" % c, {"p": q4c}))
+        T.append(("def tfun(a: Qint[4], p: Parameter[Qint[4]]) -> bool:\n    return a %s p\n" % c, {"p": q4c}))
+        T.append(("def tfun(a: Qint[2], p: Parameter[Qint[4]]) -> bool:\n    return a %s p\n" % c, {"p": q4c}))
+    F33 = [0.125, 0.5, 1.5, 2.0, 3.25, 6.5]
+    for c in (">", "==", "<="):
+        T.append(("def tfun(a: Qfixed[3, 3], p: Parameter[Qfixed[3, 3]]) -> bool:\n    return a %s p\n" % c, {"p": F33}))
+    T.append(("def tfun(a: Qfixed[3, 3], p: Parameter[Qfixed[3, 3]]) -> Qfixed[3, 3]:\n    return a + p\n", {"p": F33}))
+    T.append(("def tfun(a: Qfixed[3, 3], p: Parameter[Qfixed[3, 3]]) -> Qfixed[3, 3]:\n    return p - a\n", {"p": F33}))
+    T.append(("def tfun(a: Qfixed[2, 3], p: Parameter[Qfixed[2, 3]]) -> Qfixed[2, 3]:\n    return a + p\n", {"p": [0.125, 0.5, 1.5, 2.0, 3.25]}))
     # several parameters, every position
     T.append(("def tfun(p: Parameter[Qint[2]], a: Qint[2], q: Parameter[bool]) -> Qint[2]:\n    return (a + p) if q else (a - p)\n", {"p": QI2, "q": BO}))
     T.append(("def tfun(a: Qint[2], p: Parameter[Qint[2]], q: Parameter[Qint[2]]) -> Qint[4]:\n    return a * p + q\n", {"p": QI2, "q": QI2}))
